@@ -34,8 +34,8 @@ META = dict(
 )
 
 PREFIX = ("reg", "conn", "uod", "rs1")
-ALPHABET_QUICK = ("tA+6", "tA+5", "tA=", "tA-3", "tB+6", "bounce1")           # at most one reconnect per stream
-ALPHABET_DEEP = ("tA+6", "tA+5", "tA=", "tA-3", "tB+6", "bounce")               # any number of reconnects
+ALPHABET_QUICK = ("tA+6", "tA+5", "tA=", "tA-3", "tA-9", "tB+6", "bounce1")           # at most one reconnect per stream
+ALPHABET_DEEP = ("tA+6", "tA+5", "tA=", "tA-3", "tA-9", "tB+6", "bounce")               # any number of reconnects
 ALPHABET_WIDE = ("tA+6", "tA+5", "tA=", "tA-3", "tB+6", "bounce", "tAB+6", "tB-3", "next")
 # (alphabet, depth) explored per tier; thorough contains the quick space
 PLAN = {"quick": [(ALPHABET_QUICK, 6)], "thorough": [(ALPHABET_DEEP, 7), (ALPHABET_WIDE, 6)]}
